@@ -59,6 +59,10 @@ def shrink_candidates(record):
             s2 = copy.deepcopy(s)
             s2["crash"]["torn"] = None
             yield _with(record, schedules=scheds[:si] + [s2] + scheds[si + 1:])
+        if s.get("stale_dir") and (s.get("proc") or s.get("threads") or s.get("pollution") or s.get("clock")):
+            s2 = copy.deepcopy(s)
+            s2.update(proc=[], threads=[], pollution=[], clock=[])
+            yield _with(record, schedules=scheds[:si] + [s2] + scheds[si + 1:])
         for key in ("pollution", "clock"):
             if s.get(key):
                 s2 = copy.deepcopy(s)
